@@ -1,5 +1,5 @@
 """C04 — every report points at the real culprit (locations and payloads as provenance terms)."""
-from analysis import strip_refs, erase_generics, term_mentions
+from analysis import View, strip_refs, erase_generics, term_mentions
 from sites import BodySites, npath, ty_is_payload_iter
 from lin import Finding
 
@@ -206,6 +206,43 @@ def _child_loc_finding(view, root_loc_names, locc, what, bb):
         f.undecided = True
     return f
 
+ADAPTORS_ITEMWISE = {"try_fold", "fold", "try_for_each", "for_each", "map", "filter_map", "map_while", "flat_map", "find_map"}
+
+
+def _closure_item(view, term):
+    """term = `arg.k` of the closure body `view`, where the closure is the function of an itemwise iterator adaptor applied to
+    the payload's own iterator (`seq.into_iter().enumerate()` / `map.into_iter()`): (param index, k, 'seq-enumerated' | 'map')"""
+    term = strip_refs(term)
+    if view.b.kind != "Closure" or not (term[0] == "field" and isinstance(term[1], tuple) and term[1][0] == "param" and term[2] is None and term[3] in ("0", "1")):
+        return None
+    pidx = term[1][1]
+    parent_path = view.b.path.rsplit("::{closure", 1)[0]
+    parent = None
+    for pb in view.b.crate.bodies:
+        if pb.path == parent_path:
+            parent = pb
+    if parent is None:
+        return None
+    import coll
+    pv = View(parent)
+    for bb, c in pv.calls():
+        if c.fn is None or not c.trait or erase_generics(c.trait) != "std::iter::Iterator" or c.name not in ADAPTORS_ITEMWISE:
+            continue
+        t = pv.origin_call(bb)
+        if not any(strip_refs(a) and strip_refs(a)[0] == "agg" and strip_refs(a)[1] == "closure" and len(strip_refs(a)) > 3 and strip_refs(a)[3] == view.b.path for a in t[3]):
+            continue
+        # the item is the last argument of the closure (fold-like adaptors pass the state first)
+        if pidx != view.b.arg_count:
+            return None
+        names, src = coll.iterator_chain(pv, bb)
+        if names == ["std::iter::Iterator::enumerate", "Sequence::into_iter"]:
+            return (pidx, term[3], "seq-enumerated")
+        if names == ["Map::into_iter"]:
+            return (pidx, term[3], "map")
+        return None
+    return None
+
+
 def c04_rules(view, bs, root_loc_names=("location", "deserr_location__"), root_view=None):
     out = []
     ob = 0
@@ -237,6 +274,21 @@ def c04_rules(view, bs, root_loc_names=("location", "deserr_location__"), root_v
             continue
         it = item_of(val[3][0])
         if it is None:
+            ci = _closure_item(view, val[3][0])
+            if ci is not None:
+                # the function of an iterator adaptor: its argument is the item (`(index, value)` after enumerate, `(key, value)` of a map)
+                kind_ = ci[2]
+                want_part = ("field", ("param", ci[0]), None, "0")
+                if kind_ == "seq-enumerated":
+                    okl = locc[0] == "push_index" and is_own_location(view, locc[1], root_loc_names) and _same_field(locc[2], want_part)
+                    if ci[1] != "1" or not okl:
+                        out.append(_child_loc_finding(view, root_loc_names, locc, "sequence element child is not located at push_index(own location, this element's index)", ch["bb"]))
+                    continue
+                if kind_ == "map":
+                    okl = locc[0] == "push_key" and is_own_location(view, locc[1], root_loc_names) and _same_field(locc[2], want_part)
+                    if ci[1] != "1" or not okl:
+                        out.append(_child_loc_finding(view, root_loc_names, locc, "map entry child is not located at push_key(own location, this entry's key)", ch["bb"]))
+                    continue
             out.append(finding("C04.CHILD", view, "cannot establish which payload item this child examines", ch["bb"], fmt(val[3][0])))
             continue
         nbb, part = it
